@@ -18,7 +18,7 @@ Judge(e) ==
             Fails(e, "CountIsTrue", e.answer = e.truth)
          \o Fails(e, "LabelAgrees", e.label = "balanced")
          \o Fails(e, "HARNESS_ModelTokenMatchesOracle",
-                  e.token \in DOMAIN MCTokens => e.truth = TrueCount(MCTokens[e.token], e.atom))
+                  (e.token \in DOMAIN MCTokens /\ e.atom \in {"C", "O"}) => e.truth = MCTrue[<<e.token, e.atom>>])
       [] OTHER -> << <<e.id, "UnknownEvent">> >>
 
 TInit == Init /\ i = 1 /\ bad = <<>> /\ TLCSet(1, <<>>)
